@@ -50,14 +50,16 @@ ALPHABET = "abcxyzABCXYZ0123456789 \n-_.,;:!?()/+éßЖ中"
 
 
 def _int_key_predicates(fn: ast.AST) -> list:
+    """[(normalised text, node)]: the condition under which a name is converted to an integer key -- the test of the `if` whose
+    body contains `K = int(K)` (the name written as K), whatever the test looks like"""
     out = []
     for n in ast.walk(fn):
-        if isinstance(n, ast.BoolOp) and isinstance(n.op, ast.And) and len(n.values) == 2:
-            a, b = n.values
-            if isinstance(a, ast.Call) and isinstance(a.func, ast.Attribute) and a.func.attr in ("isdecimal", "isdigit", "isnumeric") \
-                    and isinstance(b, ast.Compare) and isinstance(b.left, ast.Call) and unparse(b.left.func) == "int":
-                var = unparse(a.func.value)
-                out.append((unparse(n).replace(var, "K"), n))
+        if isinstance(n, ast.If):
+            for b in n.body:
+                if isinstance(b, ast.Assign) and len(b.targets) == 1 and isinstance(b.targets[0], ast.Name) and isinstance(b.value, ast.Call) \
+                        and unparse(b.value.func) == "int" and len(b.value.args) == 1 and unparse(b.value.args[0]) == b.targets[0].id:
+                    var = b.targets[0].id
+                    out.append((re.sub(r"\b{}\b".format(re.escape(var)), "K", unparse(n.test)), n.test))
     return out
 
 
@@ -79,7 +81,9 @@ def rule_r1(ctx) -> RuleResult:
         if not ps:
             raise AnalysisError("{}: integer-key predicate not found".format(name))
         preds[name] = ps[0]
-    ref = "K.isdecimal() and int(K) > 0"
+    # sibling agreement: the predicate of the majority is the reference (all three agree on the pinned tree)
+    texts = [t for t, _ in preds.values()]
+    ref = max(set(texts), key=lambda t: (texts.count(t), t == "K.isdecimal() and int(K) > 0"))
     for name, (txt, node) in preds.items():
         if txt == ref:
             rr.ok(name, txt, {"impl": name, "predicate": txt})
